@@ -178,7 +178,7 @@ LC(d, c) == Opp(d, Pv(c))                                       \* GetLeftCorner
 FaceOf(c) == IF c = INV THEN INV ELSE c \div 3
 FVis(t, f) == f = INV \/ f \in t.fv                             \* IsFaceVisited(kInvalidFaceIndex) is true
 OnBoundary(d, v) == SwingL(d, d.vc[v + 1]) = INV
-Report(d, t, v, c) == IF v \in t.vv THEN t ELSE [t EXCEPT !.vv = @ \cup {v}, !.order = Append(@, d.ctv[c])]
+Report(d, t, v, c) == IF v \in t.vv THEN t ELSE [t EXCEPT !.vv = @ \cup {v}, !.order = Append(@, d.ctv[c]), !.cor = Append(@, c)]
 Pop(st) == SubSeq(st, 1, Len(st) - 1)
 RECURSIVE TInner(_, _, _, _, _), TOuter(_, _, _)
 TInner(d, t, c, f, fuel) ==
@@ -206,9 +206,41 @@ FromCorner(d, t, c0, fuel) ==
   TOuter(d, [Report(d, Report(d, t, nvx, Nx(c0)), pvx, Pv(c0)) EXCEPT !.stack = <<c0>>], fuel)
 RECURSIVE TFaces(_, _, _, _, _)
 TFaces(d, t, f, nf, fuel) == IF f = nf THEN t ELSE TFaces(d, FromCorner(d, t, 3 * f, fuel), f + 1, nf, fuel)
-Traverse(d, nf) == TFaces(d, [fv |-> {}, vv |-> {}, order |-> <<>>, stack |-> <<>>, err |-> ""], 0, nf, 6 * nf + 12)
+Traverse(d, nf) == TFaces(d, [fv |-> {}, vv |-> {}, order |-> <<>>, cor |-> <<>>, stack |-> <<>>, err |-> ""], 0, nf, 6 * nf + 12)
 \* value index per point (-1: the point is never reported): what the position attribute of an accepted mesh looks like, point by point
 VIdx(order, np) == [p \in 1..np |-> IF \E k \in 1..Len(order) : order[k] = p - 1 THEN (CHOOSE k \in 1..Len(order) : order[k] = p - 1) - 1 ELSE -1]
+
+\* ---------------------------------------------------------------- parallelogram prediction over the traversal (MeshPredictionSchemeParallelogramDecoder)
+\* Entry p (0-based, traversal order) was reported at corner cor[p].  Across the edge opposite to that corner lies a face; when its three vertices
+\* all have entries before p the prediction is next + prev - opposite, otherwise the previous entry; the wrap transform (module IntAttr: clamp the
+\* prediction into [lo, hi], add the correction, take the result back by one period) turns prediction + correction into the value.  corr(p) = the three
+\* corrections of entry p.
+IA == INSTANCE IntAttr
+EntryOf(order, v) == IF \E k \in 1..Len(order) : order[k] = v THEN (CHOOSE k \in 1..Len(order) : order[k] = v) - 1 ELSE -1
+RECURSIVE ParaVals(_, _, _, _, _, _)
+ParaVals(d, t, p, vals, lo, hi) ==
+  IF p = Len(t.order) THEN vals ELSE
+  LET corr == <<3 * p + 1, 3 * p + 2, 3 * p + 3>>
+      oci == Opp(d, t.cor[p + 1])
+      \* the decoder's vertex -> entry map starts out as zeros (MeshAttributeIndicesEncodingData::Init resizes it; only the encoder fills it with -1):
+      \* a vertex the traversal never reports stands for entry 0
+      E(v) == LET e == EntryOf(t.order, v) IN IF e < 0 THEN 0 ELSE e
+      eo == IF oci = INV THEN p ELSE E(Vtx(d, oci))
+      en == IF oci = INV THEN p ELSE E(Vtx(d, Nx(oci)))
+      ep == IF oci = INV THEN p ELSE E(Vtx(d, Pv(oci)))
+      para == oci # INV /\ eo < p /\ en < p /\ ep < p
+      pred == IF p = 0 THEN <<0, 0, 0>>
+              ELSE IF para THEN [c \in 1..3 |-> vals[en + 1][c] + vals[ep + 1][c] - vals[eo + 1][c]]
+              ELSE vals[p]
+      v == [c \in 1..3 |-> IA!Unwrap(pred[c], corr[c], lo, hi)]
+  IN ParaVals(d, t, p + 1, Append(vals, v), lo, hi)
+\* per point: its predicted position, or <<>> for a point the traversal never reports
+ParaPos(r, nf, lo, hi) ==
+  IF r.out # "acc" THEN <<>> ELSE
+  LET t == Traverse(r.d, nf) IN
+  IF t.err # "" THEN <<>> ELSE
+  LET vals == ParaVals(r.d, t, 0, <<>>, lo, hi) IN
+  [pt \in 1..r.np |-> LET e == EntryOf(t.order, pt - 1) IN IF e < 0 THEN <<>> ELSE vals[e + 1]]
 
 \* ---------------------------------------------------------------- the whole connectivity decode
 \* syms in DECODER order; ev = <<src, split, edge>> triples ascending in src; sb = start-face bits
